@@ -8,6 +8,7 @@ import (
 	"strconv"
 	"strings"
 
+	"github.com/Comcast/gots/v2/packet"
 	"github.com/Comcast/gots/v2/psi"
 
 	"gotsverif/engine"
@@ -255,7 +256,7 @@ func c06Verify(res *engine.Result, pre string, pmt psi.PMT, w *c06Want, deep boo
 
 // ---- carrier ----------------------------------------------------------------------------------
 
-var c06LeadNames = []string{"pointer_field=0", "pointer+filler", "pointer+filler", "pointer+filler", "foreign-section-first", "foreign-section-first"}
+var c06LeadNames = []string{"pointer_field=0", "pointer+filler", "pointer+filler", "pointer+filler", "foreign-section-first", "foreign-section-first", "other-pmt-section-first"}
 
 // c06Payload assembles the complete payload: lead-in (pointer_field with filler, or pointer_field 0
 // and a complete foreign section), the PMT section, trailing stuffing.
@@ -266,8 +267,11 @@ func c06Payload(lead int, sec []byte, trail int) []byte {
 		p = ref.Pointer(c06Pointers[lead])
 	case lead == 4:
 		p = append(ref.Pointer(0), ref.OtherSection(0x42, 3)...)
-	default:
+	case lead == 5:
 		p = append(ref.Pointer(0), ref.OtherSection(0x42, 20)...)
+	default:
+		// another complete program map section (a different program) in front of the wanted one
+		p = append(ref.Pointer(0), ref.PMTBytes(c06Decoy, false)...)
 	}
 	p = append(p, sec...)
 	for i := 0; i < trail; i++ {
@@ -438,8 +442,9 @@ func c06CRC(res *engine.Result, lead string, payload []byte, spans []ref.Section
 	}
 	engine.Guard(res, "ExtractCRC", func() {
 		got, err := psi.ExtractCRC(payload)
-		if spans[0].TableID != 0x02 {
-			res.Event("ExtractCRC with a foreign section first (not asserted)")
+		if spans[0].TableID != 0x02 || len(spans) > 1 {
+			// the statement does not say which section's CRC counts when another section precedes the table
+			res.Event("ExtractCRC with another section first (not asserted)")
 			return
 		}
 		res.Evals++
@@ -511,7 +516,7 @@ func c06CarrierBody(streamCounts []int) func(ch *engine.Chooser) engine.Result {
 		var res engine.Result
 		sec := c06ChooseSection(ch, streamCounts)
 		reservedZero := ch.Bool("reserved-bits-zero")
-		lead := ch.Choose("lead-in", 6)
+		lead := ch.Choose("lead-in", 7)
 		trail := ch.Choose("trailing-stuffing-bytes", 4)
 		var c c06Carrier
 		c.pid = engine.Pick(ch, "pmt-pid", c06PMTPIDs)
@@ -553,6 +558,70 @@ func c06CarrierBody(streamCounts []int) func(ch *engine.Chooser) engine.Result {
 		res.Outcome(leadName, len(sec.Streams), sec.Version, sec.CurrentNext, len(payload), w.obs)
 		return res
 	}
+}
+
+// ---- scenario "accumulator-reuse": two tables through one accumulator -------------------------------
+
+type c06ReuseCase struct {
+	A     int `json:"table_a"`
+	B     int `json:"table_b"`
+	First int `json:"first_packet_payload"`
+}
+
+var c06ReuseSections = []ref.PMTSection{
+	{Program: 1, Version: 1, CurrentNext: true, PCRPID: 0x101, Streams: []ref.Stream{{Type: 0x1B, PID: 0x101}, {Type: 0x0F, PID: 0x102, Descs: []ref.Desc{{Tag: 0x0A, Body: []byte("eng\x00")}, {Tag: 0x0E, Body: []byte{0xC3, 0xDD, 0x01}}}}}},
+	{Program: 1, Version: 2, CurrentNext: true, PCRPID: 0x101, Streams: []ref.Stream{{Type: 0x1B, PID: 0x101}, {Type: 0x0F, PID: 0x102, Descs: []ref.Desc{{Tag: 0x0A, Body: []byte("spa\x03")}, {Tag: 0x0E, Body: []byte{0xC1, 0x23, 0x45}}}}}},
+	{Program: 2, Version: 7, CurrentNext: false, PCRPID: 0x20, ProgDescs: []ref.Desc{{Tag: 0x05, Body: []byte("DOVI")}}, Streams: []ref.Stream{{Type: 0x87, PID: 0x33, Descs: []ref.Desc{{Tag: 0x0A, Body: []byte("fra\x01")}}}}},
+	{Program: 3, Version: 0, CurrentNext: true, PCRPID: 0x1FFF, Streams: []ref.Stream{{Type: 0x24, PID: 0x44, Descs: []ref.Desc{{Tag: 0x52, Body: []byte{9}}, {Tag: 0x0A, Body: []byte("deu\x02")}, {Tag: 0x7F, Body: []byte{0x20, 'd', 'e', 'u', 0x40}}}}, {Type: 0x86, PID: 0x45}}},
+}
+
+// c06CheckReuse accumulates table A, decodes it, then accumulates table B through the SAME accumulator
+// (with or without Reset) and decodes it: both decoded objects must keep reporting their own table.
+func c06CheckReuse(c c06ReuseCase) engine.Result {
+	var res engine.Result
+	engine.Guard(&res, "accumulator-reuse", func() {
+		acc := packet.NewAccumulator(psi.PmtAccumulatorDoneFunc)
+		feed := func(sec *ref.PMTSection, cc byte) []byte {
+			payload := append(ref.Pointer(0), ref.PMTBytes(*sec, false)...)
+			rest := payload
+			for i := 0; len(rest) > 0; i++ {
+				n := 184
+				if i == 0 {
+					n = c.First
+				}
+				if n > len(rest) {
+					n = len(rest)
+				}
+				p := packet.Packet(ref.CarryPayload(0x64, i == 0, cc+byte(i), rest[:n]))
+				acc.WritePacket(&p)
+				rest = rest[n:]
+			}
+			return acc.Bytes()
+		}
+		a, b := c06ReuseSections[c.A], c06ReuseSections[c.B]
+		bytesA := feed(&a, 0)
+		pmtA, errA := psi.NewPMT(bytesA)
+		res.Evals++
+		if errA != nil {
+			res.Failf("accumulator-reuse|first-table|error", "%v", errA)
+			return
+		}
+		c06Verify(&res, "accumulator-reuse|first-table|", pmtA, c06MakeWant(&a), true)
+		acc.Reset() // a completed accumulator refuses packets until it is reset
+		bytesB := feed(&b, 5)
+		pmtB, errB := psi.NewPMT(bytesB)
+		res.Evals++
+		if errB != nil {
+			res.Failf("accumulator-reuse|second-table|error", "%v", errB)
+			return
+		}
+		c06Verify(&res, "accumulator-reuse|second-table|", pmtB, c06MakeWant(&b), true)
+		// the first decoded table must still report what was decoded
+		c06Verify(&res, "accumulator-reuse|first-table-after-second|", pmtA, c06MakeWant(&a), true)
+	})
+	res.Nontrivial = 1
+	res.Outcome(c.A, c.B, c.First)
+	return res
 }
 
 // c06Norm makes nil and empty slices compare equal.
@@ -875,6 +944,20 @@ func init() {
 				Name: "large-sections",
 				Rule: "case = section padded to an exact section_length in {150,180,181,184,400,1021} (thorough: 16 lengths around the one-, two- and three-packet limits up to the maximal 1021) x 2 content variants x lead-in {pointer_field 0, pointer_field 100 with filler, foreign section first} x last-packet style (quick: one style per variant); the last stream's ES_info_length exceeds 255; per case: accessors, done predicate on every prefix, ExtractCRC, NewPMT, ReadPMT for every first-packet size 1..184 x second packet full/3 bytes with a foreign-PID packet in every gap; non-trivial = each (case, first size, second size)",
 				Gen:  c06GenBig, Check: c06CheckBig, Batch: 1,
+			},
+			&engine.Enum[c06ReuseCase]{
+				Name: "accumulator-reuse",
+				Rule: "every ordered pair (A,B) of 4 tables (same PIDs with different descriptor bodies, different programs, different sizes) x first-packet payload size in {184,100,20,4,1}: A is accumulated and decoded, the accumulator is reset, then B is accumulated through the same accumulator and decoded; both decoded objects must report exactly their own table, A also after B was decoded",
+				Gen: func(r *engine.Run, emit func(c06ReuseCase)) {
+					for a := range c06ReuseSections {
+						for b := range c06ReuseSections {
+							for _, f := range []int{184, 100, 20, 4, 1} {
+								emit(c06ReuseCase{a, b, f})
+							}
+						}
+					}
+				},
+				Check: c06CheckReuse, Batch: 4,
 			},
 			&engine.Enum[c06HdrCase]{
 				Name: "table-header-codec",
